@@ -291,6 +291,18 @@ theorem C08_sort_ascending_unchanged (ns : Bool) (L : List Name) (h : L.Pairwise
     sortNodesWith ns L = .ok L :=
   sortNodes_ascending ns L h
 
+/-- **`EntNode::sort` is correct for every request list** (non-strict `lastSmaller`, i.e. the source since fix C08-2):
+no crash, within the fuel, and the result is an ascending permutation of the list — however many nodes were renamed and
+whatever names became equal.  Invariant: the nodes up to `this` are ascending; a moved run lands between the last node
+not greater than its head and the first node greater than it. -/
+theorem C08_sort_correct (L : List Name) :
+    ∃ L', sortNodesWith true L = .ok L' ∧ L'.Perm L ∧ L'.Pairwise (· ≤ ·) :=
+  sortNodes_correct L
+
+/-- … hence for the source as it is now (`C08_sort_guarded`) -/
+theorem C08_sort_correct_now (L : List Name) : ∃ L', sortNodes L = .ok L' ∧ L'.Perm L ∧ L'.Pairwise (· ≤ ·) := by
+  unfold sortNodes; rw [C08_sort_guarded]; exact sortNodes_correct L
+
 /-- with non-strict comparisons the same list is sorted -/
 theorem C08_sort_nonstrict_example : sortNodesWith true [0, 0, 2, 1] = .ok [0, 0, 1, 2] ∧
     sortNodesWith true [3, 1, 3, 0, 2] = .ok [0, 1, 2, 3, 3] ∧ sortNodesWith false [3, 1, 4, 0, 2] = .ok [0, 1, 2, 3, 4] := by
